@@ -335,7 +335,66 @@ fn run_sequence(spec: &SequenceSpec, known: &KnownFindings) -> Option<(u64, usiz
     None
 }
 
-fn run_one(base: u64, index: u64, known: &KnownFindings, st: &mut BatchStats, stop_after: &AtomicU64, kind: Kind) {
+/// Progress of one worker, read by the watchdog.
+#[derive(Default)]
+struct Beat {
+    index: AtomicU64,
+    ordinal: AtomicU64,
+    ticks: AtomicU64,
+    done: std::sync::atomic::AtomicBool,
+}
+
+fn hang_secs() -> u64 {
+    std::env::var("TFSIM_HANG_SECS").ok().and_then(|s| s.parse().ok()).unwrap_or(60)
+}
+
+/// A worker has not finished a single step for `hang_secs()`: code under test hangs. Report the
+/// step it is stuck in as a violation (class HANG) and end the process.
+fn report_hang(kind: Kind, base: u64, index: u64, ordinal: usize, out_dir: &Path, label: &Option<String>) -> ! {
+    let mut gen = values::GenStats::default();
+    let (_, steps) = steps_of(kind, base, index, &mut gen);
+    let lab = label.as_deref().map(|l| format!("-{l}")).unwrap_or_default();
+    let replay_dir = out_dir.join("replays");
+    let _ = std::fs::create_dir_all(&replay_dir);
+    match steps.into_iter().nth(ordinal) {
+        Some(step) => {
+            let leg = step.case.leg();
+            let detail = format!("the operation did not complete within {} s (kind {}, step {} of the run)", hang_secs(), kind.name(), ordinal);
+            let rf = ReplayFile {
+                property: PROPERTY.into(),
+                class: "HANG".into(),
+                detail: detail.clone(),
+                base_seed: base,
+                run_index: index,
+                minimised: false,
+                shrink_steps: 0,
+                config_label: label.clone(),
+                history: step.history.clone(),
+                case: step.case.clone(),
+                delivered_record: None,
+                delivered_bytes: None,
+                sequence: None,
+                original_history: step.history,
+                original_case: step.case,
+            };
+            let path = replay_dir.join(format!("{PROPERTY}{lab}-{base}-{index}-{}-HANG.json", LEG_NAMES[leg]));
+            let _ = std::fs::write(&path, serde_json::to_string_pretty(&rf).unwrap() + "\n");
+            println!("violation class=HANG leg={} base_seed={base} run={index} shrink_steps=0", LEG_NAMES[leg]);
+            println!("  {detail}");
+            println!("VIOLATION property={PROPERTY} replay={}", path.display());
+            std::process::exit(1);
+        }
+        None => {
+            eprintln!("HARNESS ERROR: a worker is stuck in run {index} (kind {}) outside any step", kind.name());
+            std::process::exit(2);
+        }
+    }
+}
+
+fn run_one(base: u64, index: u64, known: &KnownFindings, st: &mut BatchStats, stop_after: &AtomicU64, kind: Kind, beat: &Beat) {
+    beat.index.store(index, Ordering::SeqCst);
+    beat.ordinal.store(u64::MAX, Ordering::SeqCst);
+    beat.ticks.fetch_add(1, Ordering::SeqCst);
     let (val, cases): (values::Val, Vec<Step>) = steps_of(kind, base, index, &mut st.gen);
     let sweep = kind != Kind::Random;
     if kind == Kind::ThinLattice {
@@ -350,7 +409,9 @@ fn run_one(base: u64, index: u64, known: &KnownFindings, st: &mut BatchStats, st
     let mut run_hash = Hash64::default();
     run_hash.u64(index);
     let mut fails: Vec<(usize, Step, Vec<Violation>)> = Vec::new();
-    for step in cases {
+    for (ordinal, step) in cases.into_iter().enumerate() {
+        beat.ordinal.store(ordinal as u64, Ordering::SeqCst);
+        beat.ticks.fetch_add(1, Ordering::SeqCst);
         let leg = step.case.leg();
         let rep = step.execute();
         st.legs += 1;
@@ -417,13 +478,18 @@ fn run_batch(base: u64, runs: u64, workers: usize, known: &KnownFindings) -> Bat
     run_batch_kind(base, runs, workers, known, Kind::Random)
 }
 
+/// Where a hang report is written (set once in main).
+static HANG_CTX: std::sync::OnceLock<(PathBuf, Option<String>)> = std::sync::OnceLock::new();
+
 fn run_batch_kind(base: u64, runs: u64, workers: usize, known: &KnownFindings, kind: Kind) -> BatchStats {
     let stop_after = Arc::new(AtomicU64::new(u64::MAX));
     let known = Arc::new(known.clone());
+    let beats: Arc<Vec<Beat>> = Arc::new((0..workers).map(|_| Beat::default()).collect());
     let mut handles = Vec::new();
     for w in 0..workers {
         let stop_after = stop_after.clone();
         let known = known.clone();
+        let beats = beats.clone();
         handles.push(
             std::thread::Builder::new()
                 .stack_size(16 << 20)
@@ -434,13 +500,46 @@ fn run_batch_kind(base: u64, runs: u64, workers: usize, known: &KnownFindings, k
                         if i > stop_after.load(Ordering::Relaxed) {
                             break;
                         }
-                        run_one(base, i, &known, &mut st, &stop_after, kind);
+                        run_one(base, i, &known, &mut st, &stop_after, kind, &beats[w]);
                         i += workers as u64;
                     }
+                    beats[w].done.store(true, Ordering::SeqCst);
                     st
                 })
                 .expect("spawn worker"),
         );
+    }
+    // watchdog: a worker whose step counter stands still for hang_secs() is stuck in code under test
+    {
+        let beats = beats.clone();
+        std::thread::spawn(move || {
+            let limit = hang_secs();
+            let mut last: Vec<u64> = vec![u64::MAX; beats.len()];
+            let mut stale: Vec<u64> = vec![0; beats.len()];
+            loop {
+                std::thread::sleep(std::time::Duration::from_secs(1));
+                if beats.iter().all(|b| b.done.load(Ordering::SeqCst)) {
+                    return;
+                }
+                for (w, b) in beats.iter().enumerate() {
+                    if b.done.load(Ordering::SeqCst) {
+                        continue;
+                    }
+                    let t = b.ticks.load(Ordering::SeqCst);
+                    if t == last[w] {
+                        stale[w] += 1;
+                    } else {
+                        stale[w] = 0;
+                        last[w] = t;
+                    }
+                    if stale[w] >= limit {
+                        let (dir, label) = HANG_CTX.get().cloned().unwrap_or((PathBuf::from("/verif"), None));
+                        let ord = b.ordinal.load(Ordering::SeqCst);
+                        report_hang(kind, base, b.index.load(Ordering::SeqCst), if ord == u64::MAX { usize::MAX } else { ord as usize }, &dir, &label);
+                    }
+                }
+            }
+        });
     }
     let mut total = BatchStats::default();
     for h in handles {
@@ -466,6 +565,9 @@ struct ReplayFile {
     run_index: u64,
     minimised: bool,
     shrink_steps: u32,
+    /// build configuration of the simulator that recorded this file (None = primary)
+    #[serde(default, skip_serializing_if = "Option::is_none")]
+    config_label: Option<String>,
     /// operations performed (on related values, results ignored) before the checked case
     #[serde(default)]
     history: Vec<history::HistOp>,
@@ -488,7 +590,7 @@ fn has_class(rep: &LegReport, class: &str) -> Option<Violation> {
     rep.violations.iter().find(|v| v.class == class).cloned()
 }
 
-fn minimise(case: &Step, class: &str) -> (Step, u32) {
+fn minimise(case: &Step, class: &str, known: &KnownFindings) -> (Step, u32) {
     let mut cur = case.clone();
     let mut steps = 0u32;
     let mut execs = 0u32;
@@ -505,7 +607,8 @@ fn minimise(case: &Step, class: &str) -> (Step, u32) {
             if execs > 5000 {
                 break 'outer;
             }
-            if has_class(&cand.execute(), class).is_some() {
+            let leg = cand.case.leg();
+            if cand.execute().violations.iter().any(|v| v.class == class && known.matches(leg, v).is_none()) {
                 cur = cand;
                 steps += 1;
                 continue 'outer;
@@ -525,7 +628,7 @@ fn informational(case: &Case) -> (Option<serde_json::Value>, Option<String>) {
     }
 }
 
-fn replay(path: &Path, known: &KnownFindings) -> i32 {
+fn replay(path: &Path, known: &KnownFindings, my_label: &Option<String>) -> i32 {
     let text = match std::fs::read_to_string(path) {
         Ok(t) => t,
         Err(e) => {
@@ -540,6 +643,15 @@ fn replay(path: &Path, known: &KnownFindings) -> i32 {
             return 2;
         }
     };
+    if rf.config_label != *my_label {
+        eprintln!(
+            "HARNESS ERROR: replay file {} was recorded by configuration {:?} but this simulator binary is configuration {:?} (use ./check C20 --replay, which routes by the file name)",
+            path.display(),
+            rf.config_label.as_deref().unwrap_or("primary"),
+            my_label.as_deref().unwrap_or("primary")
+        );
+        return 2;
+    }
     if let Some(spec) = &rf.sequence {
         println!(
             "replay {}: window of runs {}..={} (kind {}, base seed {}) on one thread, recorded class={}",
@@ -568,8 +680,26 @@ fn replay(path: &Path, known: &KnownFindings) -> i32 {
         };
     }
     let step = Step { history: rf.history.clone(), case: rf.case.clone() };
-    let rep = step.execute();
     println!("replay {}: leg={} recorded class={}", path.display(), LEG_NAMES[rf.case.leg()], rf.class);
+    // execute under a deadline: a recorded HANG must not hang the replay
+    let (tx, rx) = std::sync::mpsc::channel();
+    {
+        let step = step.clone();
+        let _ = std::thread::Builder::new().stack_size(16 << 20).spawn(move || {
+            let _ = tx.send(step.execute());
+        });
+    }
+    let rep = match rx.recv_timeout(std::time::Duration::from_secs(hang_secs())) {
+        Ok(rep) => rep,
+        Err(_) => {
+            println!("  HANG: the operation did not complete within {} s", hang_secs());
+            if rf.class == "HANG" {
+                println!("REPRODUCED class=HANG detail_identical=true");
+            }
+            println!("VIOLATION property={PROPERTY} replay={}", path.display());
+            std::process::exit(1);
+        }
+    };
     println!("outcome: {}", rep.outcome);
     let mut code = 0;
     for v in &rep.violations {
@@ -868,6 +998,8 @@ struct Args {
     summary_only: Option<PathBuf>,
     /// summaries of secondary configurations to embed in the evidence
     merge_summaries: Vec<PathBuf>,
+    /// secondary configurations in which the crate itself does not build (skipped)
+    skipped_configs: Vec<String>,
     /// run the quick tier's thin validity-gate lattice even with an explicit `--runs` budget
     lattice: bool,
     /// `--replay-sequence <base> <kind> <from> <to>`: run that window on one thread and report
@@ -894,6 +1026,7 @@ fn parse_args() -> Result<Args, String> {
         config_label: None,
         summary_only: None,
         merge_summaries: Vec::new(),
+        skipped_configs: Vec::new(),
         lattice: false,
         replay_sequence: None,
     };
@@ -918,6 +1051,7 @@ fn parse_args() -> Result<Args, String> {
             "--config-label" => a.config_label = Some(val("--config-label")?),
             "--summary-only" => a.summary_only = Some(PathBuf::from(val("--summary-only")?)),
             "--merge-summary" => a.merge_summaries.push(PathBuf::from(val("--merge-summary")?)),
+            "--skipped-config" => a.skipped_configs.push(val("--skipped-config")?),
             "--replay-sequence" => {
                 let base_seed = val("--replay-sequence")?.parse().map_err(|e| format!("--replay-sequence base: {e}"))?;
                 let kind = val("--replay-sequence")?;
@@ -1131,10 +1265,25 @@ fn main() {
         }
     };
     if let Some(p) = &a.replay {
-        std::process::exit(replay(p, &known));
+        // same stack size as the batch workers
+        let (p, known2, label) = (p.clone(), known.clone(), a.config_label.clone());
+        let code = std::thread::Builder::new()
+            .stack_size(16 << 20)
+            .spawn(move || replay(&p, &known2, &label))
+            .expect("spawn replay thread")
+            .join()
+            .unwrap_or(2);
+        std::process::exit(code);
     }
     if let Some(spec) = &a.replay_sequence {
-        match run_sequence(spec, &known) {
+        let (spec2, known2) = (spec.clone(), known.clone());
+        let res = std::thread::Builder::new()
+            .stack_size(16 << 20)
+            .spawn(move || run_sequence(&spec2, &known2))
+            .expect("spawn sequence thread")
+            .join()
+            .unwrap_or(None);
+        match res {
             Some((i, leg, v)) => {
                 println!("SEQ-FAIL run={i} leg={} class={} detail={}", LEG_NAMES[leg], v.class, v.detail);
                 std::process::exit(1);
@@ -1155,6 +1304,7 @@ fn main() {
     }
 
     let out_dir = a.out_dir.clone().unwrap_or_else(|| a.verif_dir.clone());
+    let _ = HANG_CTX.set((out_dir.clone(), a.config_label.clone()));
     let (def_runs, def_seeds) = if a.tier == "quick" { (400_000u64, 1u64) } else { (2_000_000u64, 64u64) };
     let runs = a.runs.unwrap_or(def_runs);
     let nseeds = a.seeds.unwrap_or(def_seeds);
@@ -1216,7 +1366,7 @@ fn main() {
                     continue;
                 }
                 nviol += 1;
-                let (min_step, steps) = minimise(&case, &v.class);
+                let (min_step, steps) = minimise(&case, &v.class, &known);
                 let final_v = has_class(&min_step.execute(), &v.class).unwrap_or(v.clone());
                 let (rec, bytes) = informational(&min_step.case);
                 let rf = ReplayFile {
@@ -1227,6 +1377,7 @@ fn main() {
                     run_index: idx,
                     minimised: true,
                     shrink_steps: steps,
+                    config_label: a.config_label.clone(),
                     history: min_step.history,
                     case: min_step.case,
                     delivered_record: rec,
@@ -1246,9 +1397,12 @@ fn main() {
                 // replay the minimised file in a fresh process: must fail the same way
                 if !a.no_respawn {
                     let exe = std::env::current_exe().expect("current_exe");
-                    let out = std::process::Command::new(exe)
-                        .args(["--replay", path.to_str().unwrap(), "--verif-dir", a.verif_dir.to_str().unwrap()])
-                        .output();
+                    let mut cmd = std::process::Command::new(exe);
+                    cmd.args(["--replay", path.to_str().unwrap(), "--verif-dir", a.verif_dir.to_str().unwrap()]);
+                    if let Some(l) = &a.config_label {
+                        cmd.args(["--config-label", l]);
+                    }
+                    let out = cmd.output();
                     let ok = match &out {
                         Ok(o) => {
                             let so = String::from_utf8_lossy(&o.stdout);
@@ -1271,6 +1425,7 @@ fn main() {
                                     run_index: spec.to,
                                     minimised: true,
                                     shrink_steps: 0,
+                                    config_label: a.config_label.clone(),
                                     history: Vec::new(),
                                     case: case.case.clone(),
                                     delivered_record: None,
@@ -1336,6 +1491,9 @@ fn main() {
                     std::process::exit(2);
                 }
             }
+        }
+        for l in &a.skipped_configs {
+            extra.push(serde_json::json!({"configuration": l, "skipped": "twofloat itself does not build in this feature set on the tree under test"}));
         }
         let ev_path = out_dir.join("evidence").join(format!("{PROPERTY}.json"));
         if let Err(e) = write_evidence(&ev_path, &a.tier, a.seed, &seeds, runs, a.workers, &total, wall, nviol, &known, &extra) {
